@@ -597,3 +597,36 @@ Example ex_speaks : exists evs, render_diff 8 cfg_all (fun _ => 0) ex_nb ex_diff
 Proof. eexists. split; [vm_compute; reflexivity | discriminate]. Qed.
 Example ex_hidden : render_diff 8 cfg_nosrc (fun _ => 0) ex_nb ex_diff [] = Ok [EvAction [K "cells"; KI 0; K "source"] 1; EvValue; EvValue; EvEnd].
 Proof. vm_compute. reflexivity. Qed.
+
+(* ====================================================================================================== *)
+(* 6. Statements that follow the source either way (the generated facts decide which half holds)           *)
+(* ====================================================================================================== *)
+
+Lemma show_nocolor_decided_l :
+  (highlight_respects_nocolor = true /\ show_nocolor_clean_stmt) \/
+  (highlight_respects_nocolor = false /\ show_nocolor_refuted_stmt).
+Proof.
+  destruct highlight_respects_nocolor eqn:E.
+  - left. split; auto. apply show_nocolor_clean_if. exact E.
+  - right. split; auto. apply show_nocolor_refuted_if. exact E.
+Qed.
+
+Lemma tool_assert_decided_l :
+  (strip_safe_check = true /\ tool_safe_stmt) \/ strip_safe_check = false.
+Proof.
+  destruct strip_safe_check eqn:E.
+  - left. split; auto. apply tool_safe_if. exact E.
+  - right. reflexivity.
+Qed.
+
+(* concrete witness for the assertion: colour on, colour-words on, git selected, three marker-looking lines in the
+   word-diff output (word-diff prints content lines without prefix, so the contract does not bound them) *)
+Definition tool_witness_cfg : cfg := cfg_all.
+Definition tool_witness_n : nat := 3.
+
+Lemma tool_refuted_witness : tool_refuted_stmt.
+Proof.
+  exists tool_witness_cfg, tool_witness_n. split.
+  - intros W. vm_compute in W. discriminate.
+  - vm_compute. reflexivity.
+Qed.
